@@ -29,72 +29,6 @@ func replay(run *hx.Run, job int) string {
 	return fmt.Sprintf("go run ./cmd/c03 --out /tmp/c03-replay --seed %d --tier %s --only %d", run.Seed, run.Tier, job)
 }
 
-type planted struct {
-	op      *sg.Op
-	site    sg.Site
-	variant string
-	note    string
-	cur     sg.State
-	exp     []sg.Expect
-}
-
-// plant applies op at site, optionally surrounded by additive edits.
-func plant(base sg.State, op *sg.Op, site sg.Site, mixed bool, r *hx.Rand, res *sg.Result) (*planted, bool) {
-	p := &planted{op: op, site: site, variant: "alone"}
-	s := base.S
-	if mixed {
-		p.variant = "mixed"
-		n := r.Intn(3)
-		for i := 0; i < n; i++ {
-			if c, aop, _, _, ok := sg.ApplyRandom(s, sg.AdditiveOps, r); ok {
-				s = c
-				p.note += aop.Name + " "
-			}
-		}
-	}
-	if mixed {
-		// an additive edit mixed in before may have made the element inapplicable
-		still := false
-		for _, x := range op.Sites(s) {
-			if x == site {
-				still = true
-			}
-		}
-		if !still {
-			return nil, false
-		}
-	}
-	c := s.Clone()
-	exp, ok := op.Apply(c, site, r)
-	if !ok {
-		return nil, false
-	}
-	p.note += "[" + op.Name + "] "
-	for _, e := range exp {
-		if sg.ExistedBefore(base.S, e) {
-			p.exp = append(p.exp, e)
-		} else {
-			res.Count("expect:void-new-element:" + op.Name)
-		}
-	}
-	s = c
-	k := base.K
-	if mixed {
-		n := 1 + r.Intn(2)
-		for i := 0; i < n; i++ {
-			if c, aop, _, _, ok := sg.ApplyRandom(s, sg.AdditiveOps, r); ok {
-				s = c
-				p.note += aop.Name + " "
-			}
-		}
-		if r.Bool() {
-			k = sg.RandKnobs(r)
-		}
-	}
-	p.cur = sg.State{S: s, K: k}
-	return p, true
-}
-
 func matches(as []sg.Ann, rule string, want sg.Resolved) (fired, located bool) {
 	for _, a := range as {
 		if a.Rule != rule {
@@ -120,12 +54,12 @@ func gotOf(as []sg.Ann, rule string) []string {
 }
 
 // evalPlanted compiles the planted edit and evaluates it (see evalCompiled).
-func evalPlanted(run *hx.Run, job int, res *sg.Result, rn *sg.Runner, cache *sg.Cache, prev *sg.Compiled, p *planted, r *hx.Rand) bool {
-	opn := p.op.Name
-	cur, err := cache.Compile(p.cur.Sources())
+func evalPlanted(run *hx.Run, job int, res *sg.Result, rn *sg.Runner, cache *sg.Cache, prev *sg.Compiled, p *sg.Planted, r *hx.Rand) bool {
+	opn := p.Op.Name
+	cur, err := cache.Compile(p.Cur.Sources())
 	if err != nil {
 		res.Count("edit:compile-error:" + opn)
-		res.Samples = append(res.Samples, map[string]any{"edit-compile-error": err.Error(), "op": opn, "note": p.note, "sources": p.cur.Sources()})
+		res.Samples = append(res.Samples, map[string]any{"edit-compile-error": err.Error(), "op": opn, "note": p.Note, "sources": p.Cur.Sources()})
 		return false
 	}
 	return evalCompiled(run, job, res, rn, cur, prev, p, r, "")
@@ -135,10 +69,10 @@ func evalPlanted(run *hx.Run, job int, res *sg.Result, rn *sg.Runner, cache *sg.
 // its rule id at exactly its file and source path in every version / category where the rule is
 // active (sets: "v2/FILE" -> annotations of that run) and in the single-rule run.  keep (may be
 // nil) says which expectations apply to this pair of images.
-func checkExpectations(res *sg.Result, fail func(class, what string), in map[string]any, p *planted, cur *sg.Compiled,
+func checkExpectations(res *sg.Result, fail func(class, what string), in map[string]any, p *sg.Planted, cur *sg.Compiled,
 	sets map[string][]sg.Ann, single map[string][]sg.Ann, tag string, keep func(e sg.Expect, want sg.Resolved) bool) {
-	opn := p.op.Name
-	for _, e := range p.exp {
+	opn := p.Op.Name
+	for _, e := range p.Exp {
 		want, err := sg.Resolve(cur, e)
 		if err != nil {
 			res.Count("locator:unresolved:" + opn)
@@ -154,13 +88,27 @@ func checkExpectations(res *sg.Result, fail func(class, what string), in map[str
 			res.Count("expect:void" + tag + ":" + opn)
 			continue
 		}
-		res.Count("expect" + tag + ":" + e.Rule)
+		if e.Absent {
+			res.Count("expect-absent" + tag + ":" + e.Rule)
+		} else {
+			res.Count("expect" + tag + ":" + e.Rule)
+		}
 		res.Count("checked" + tag + ":" + opn)
-		if tag == "" {
+		if tag == "" && !e.Absent {
 			res.Sets["rules_with_checked_expectation"] = append(res.Sets["rules_with_checked_expectation"], e.Rule)
 		}
 		check := func(where string, as []sg.Ann) {
 			fired, located := matches(as, e.Rule, want)
+			if e.Absent {
+				// the documentation exempts the edit: the rule must stay silent at this element
+				if located {
+					fail("C03-spurious-"+e.Rule, fmt.Sprintf("%s%s: op %s: %s must not report at file=%q path=%s (%s): the edit is exempt (reserved / the number still has a value); got %v",
+						where, tag, opn, e.Rule, want.File, want.Path, e.Locator, gotOf(as, e.Rule)))
+				} else {
+					res.Count("oracle:ok-absent")
+				}
+				return
+			}
 			switch {
 			case located:
 				res.Count("oracle:ok")
@@ -192,11 +140,11 @@ func checkExpectations(res *sg.Result, fail func(class, what string), in map[str
 
 // evalCompiled runs the detector on one planted edit (both sides compiled) and checks the
 // expectations.
-func evalCompiled(run *hx.Run, job int, res *sg.Result, rn *sg.Runner, cur, prev *sg.Compiled, p *planted, r *hx.Rand, tag string) bool {
-	opn := p.op.Name
+func evalCompiled(run *hx.Run, job int, res *sg.Result, rn *sg.Runner, cur, prev *sg.Compiled, p *sg.Planted, r *hx.Rand, tag string) bool {
+	opn := p.Op.Name
 	res.Count("applied" + tag + ":" + opn)
-	res.Count("variant:" + p.variant)
-	in := map[string]any{"current": cur.Sources, "previous": prev.Sources, "edit": p.note, "site": p.site.String(), "expect": p.exp}
+	res.Count("variant:" + p.Variant)
+	in := map[string]any{"current": cur.Sources, "previous": prev.Sources, "edit": p.Note, "site": p.Site.String(), "expect": p.Exp}
 	fail := func(class, what string) {
 		res.Fail(hx.OracleFailure{Class: class, What: what, Input: in, Replay: replay(run, job)})
 	}
@@ -208,7 +156,7 @@ func evalCompiled(run *hx.Run, job int, res *sg.Result, rn *sg.Runner, cur, prev
 	if pe.Mismatch != "" {
 		fail("C03-except-not-a-filter", pe.Mismatch)
 	}
-	res.Cases = append(res.Cases, sg.Case{In: pe.In, Out: pe.Out, Nontrivial: true, Note: p.variant + " " + p.note, Cur: cur.Sources, Prev: prev.Sources})
+	res.Cases = append(res.Cases, sg.Case{In: pe.In, Out: pe.Out, Nontrivial: true, Note: p.Variant + " " + p.Note, Cur: cur.Sources, Prev: prev.Sources})
 	for _, cat := range sg.Categories {
 		res.Count("anns:" + cat + ":" + sg.AnnBucket(len(pe.Sets["v2/"+cat])))
 	}
@@ -227,9 +175,9 @@ func evalCompiled(run *hx.Run, job int, res *sg.Result, rn *sg.Runner, cur, prev
 }
 
 // singleRuns: one single-rule run (v2) per expected rule id + the `rules` protocol line.
-func singleRuns(res *sg.Result, fail func(class, what string), rn *sg.Runner, cur, prev *sg.Compiled, p *planted, idx sg.PathIndex) (map[string][]sg.Ann, bool) {
+func singleRuns(res *sg.Result, fail func(class, what string), rn *sg.Runner, cur, prev *sg.Compiled, p *sg.Planted, idx sg.PathIndex) (map[string][]sg.Ann, bool) {
 	ruleSet := map[string]bool{}
-	for _, e := range p.exp {
+	for _, e := range p.Exp {
 		if _, ok := sg.RuleCats["v2"][e.Rule]; ok {
 			ruleSet[e.Rule] = true
 		}
@@ -257,7 +205,7 @@ func singleRuns(res *sg.Result, fail func(class, what string), rn *sg.Runner, cu
 				parts[i] = id + "=" + sg.RenderSet(sets[id])
 			}
 			res.Cases = append(res.Cases, sg.Case{In: sg.RulesOp() + "\t" + strings.Join(modelled, ",") + "\t" + cur.Encode() + "\t" + prev.Encode(),
-				Out: strings.Join(parts, "|"), Nontrivial: true, Note: "rules " + p.variant + " " + p.note, Cur: cur.Sources, Prev: prev.Sources})
+				Out: strings.Join(parts, "|"), Nontrivial: true, Note: "rules " + p.Variant + " " + p.Note, Cur: cur.Sources, Prev: prev.Sources})
 			res.Count("lines:rules")
 		}
 	}
@@ -282,8 +230,8 @@ func sortedKeys(m map[string]bool) []string {
 //   - WITH BreakingWithExcludeImports no annotation is located in an import file of the current
 //     image, the result is a subset of the run without it, and - when the previous image has no
 //     import file - every expectation located in a non-import file (or without file) survives.
-func evalPlantedImports(run *hx.Run, job int, res *sg.Result, rn *sg.Runner, base sg.State, p *planted, r *hx.Rand) {
-	opn := p.op.Name
+func evalPlantedImports(run *hx.Run, job int, res *sg.Result, rn *sg.Runner, base sg.State, p *sg.Planted, r *hx.Rand) {
+	opn := p.Op.Name
 	var files, importers []string
 	imps := base.S.Imports()
 	for _, f := range base.S.Files {
@@ -293,10 +241,10 @@ func evalPlantedImports(run *hx.Run, job int, res *sg.Result, rn *sg.Runner, bas
 		}
 	}
 	mustSet := map[string]bool{}
-	if p.site.File != "" {
-		mustSet[p.site.File] = true
+	if p.Site.File != "" {
+		mustSet[p.Site.File] = true
 	}
-	for _, e := range p.exp {
+	for _, e := range p.Exp {
 		if e.File != "" {
 			mustSet[e.File] = true
 		}
@@ -307,7 +255,7 @@ func evalPlantedImports(run *hx.Run, job int, res *sg.Result, rn *sg.Runner, bas
 		res.Count("imports:compile-error:prev")
 		return
 	}
-	cur, err := sg.CompileTargeted(p.cur.Sources(), cs)
+	cur, err := sg.CompileTargeted(p.Cur.Sources(), cs)
 	if err != nil {
 		res.Count("imports:compile-error:cur")
 		return
@@ -316,7 +264,7 @@ func evalPlantedImports(run *hx.Run, job int, res *sg.Result, rn *sg.Runner, bas
 	res.Count("imports:flavour:" + flavour)
 	res.Count("imports:mode:" + sg.TargetModeNames[cs.Mode])
 	res.Count("applied:imports:" + opn)
-	in := map[string]any{"current": cur.Sources, "previous": prev.Sources, "edit": p.note, "site": p.site.String(), "expect": p.exp,
+	in := map[string]any{"current": cur.Sources, "previous": prev.Sources, "edit": p.Note, "site": p.Site.String(), "expect": p.Exp,
 		"imports": flavour + "/" + sg.TargetModeNames[cs.Mode], "current_imports": sortedKeys(curImp), "previous_imports": sortedKeys(prevImp)}
 	fail := func(class, what string) {
 		res.Fail(hx.OracleFailure{Class: class, What: what, Input: in, Replay: replay(run, job)})
@@ -331,7 +279,7 @@ func evalPlantedImports(run *hx.Run, job int, res *sg.Result, rn *sg.Runner, bas
 		fail(sg.ErrClass("C03", px.Err), "imports: "+px.ErrAt+": "+px.Err.Error())
 		return
 	}
-	note := "imports " + flavour + "/" + sg.TargetModeNames[cs.Mode] + " " + p.variant + " " + p.note
+	note := "imports " + flavour + "/" + sg.TargetModeNames[cs.Mode] + " " + p.Variant + " " + p.Note
 	res.Cases = append(res.Cases, sg.Case{In: pe.In, Out: pe.Out, Nontrivial: true, Note: note, Cur: cur.Sources, Prev: prev.Sources})
 	if px.In != "" {
 		res.Cases = append(res.Cases, sg.Case{In: px.In, Out: px.Out, Nontrivial: true, Note: "exclude-imports " + note, Cur: cur.Sources, Prev: prev.Sources})
@@ -340,7 +288,7 @@ func evalPlantedImports(run *hx.Run, job int, res *sg.Result, rn *sg.Runner, bas
 	// the files the edit is about must be part of both images (flavour "natural" drops the files
 	// no target reaches)
 	inImages := func(e sg.Expect, want sg.Resolved) bool {
-		if p.site.File != "" && !prev.HasFile(p.site.File) {
+		if p.Site.File != "" && !prev.HasFile(p.Site.File) {
 			return false
 		}
 		if want.File != "" && (!cur.HasFile(want.File) || !prev.HasFile(want.File)) {
@@ -383,7 +331,7 @@ func evalPlantedImports(run *hx.Run, job int, res *sg.Result, rn *sg.Runner, bas
 		}
 		// single-rule runs with exclude-imports for the expected rules
 		ids := map[string]bool{}
-		for _, e := range p.exp {
+		for _, e := range p.Exp {
 			if _, ok := sg.RuleCats["v2"][e.Rule]; ok && !sg.IsUnmodelled(e.Rule) {
 				ids[e.Rule] = true
 			}
@@ -410,160 +358,11 @@ func evalPlantedImports(run *hx.Run, job int, res *sg.Result, rn *sg.Runner, bas
 // ---------------------------------------------------------------------------------------------
 // The plan: which operator is planted where.  It is computed up front (deterministically from the
 // seed) over ALL bases so that the choice can be stratified: every (operator, kind of element)
-// pair that is applicable anywhere is planted at least once (quick) / at up to three bases in both
+// pair that is applicable anywhere is planted at least once (quick) / at up to three bases, in both
 // variants (thorough), and every (base, operator) pair keeps at least one plant.  The kind of a
 // field site is syntax:shape/type (sg.FieldKind: proto2 / proto3 / editions x singular, implicit,
 // proto3 optional, required, repeated packed / expanded, map, oneof member, extension x scalar,
 // message, enum, group, delimited by a field feature, delimited inherited from the file).
-
-type entry struct {
-	bi, oi int
-	site   sg.Site
-	kind   string
-	mixed  bool
-	why    string // "kind" (stratum) | "base" (top-up: every operator on every base)
-}
-
-type baseT struct {
-	st  sg.State
-	zoo int
-}
-
-func genBase(root *hx.Rand, bi int) baseT {
-	r := root.Fork(uint64(bi))
-	zoo := bi%(sg.NumZoo+1) - 1 // -1 (no zoo), proto2, proto3, editions, editions-inherited
-	st := sg.State{S: sg.GenerateZoo(r, zoo), K: sg.PlainKnobs}
-	if r.Bool() {
-		st.K = sg.RandKnobs(r)
-	}
-	return baseT{st: st, zoo: zoo}
-}
-
-type cand struct {
-	bi     int
-	site   sg.Site
-	kind   string
-	syntax string
-}
-
-// makePlan: for every operator, (1) one plant (thorough: up to three bases, both variants) per
-// KIND of element it is applicable to, preferring sites in a file syntax the operator has not
-// been planted in yet and the least loaded base; (2) one per file SYNTAX still uncovered;
-// (3) top-up at random sites until the operator has minPerOp plants.
-func makePlan(run *hx.Run, root *hx.Rand, bases []baseT) (plan []entry, strata int) {
-	pr := root.Fork(1 << 40)
-	load := make([]int, len(bases))
-	perKind, minPerOp := 1, 10
-	if run.Thorough() {
-		perKind, minPerOp = 3, 24
-	}
-	flip := false
-	for oi, op := range sg.BreakingOps {
-		var cs []cand
-		kindSet, synSet := map[string]bool{}, map[string]bool{}
-		for bi, b := range bases {
-			for _, site := range op.Sites(b.st.S) {
-				c := cand{bi, site, op.SiteKind(b.st.S, site), op.SiteSyntax(b.st.S, site)}
-				cs = append(cs, c)
-				kindSet[c.kind], synSet[c.syntax] = true, true
-			}
-		}
-		if len(cs) == 0 {
-			continue
-		}
-		kinds := make([]string, 0, len(kindSet))
-		for k := range kindSet {
-			kinds = append(kinds, k)
-		}
-		sort.Strings(kinds)
-		syns := make([]string, 0, len(synSet))
-		for k := range synSet {
-			syns = append(syns, k)
-		}
-		sort.Strings(syns)
-		strata += len(kinds) + len(syns)
-		synDone := map[string]int{}
-		nOp := 0
-		add := func(c cand, why string) {
-			variants := []bool{false, true}
-			if !run.Thorough() {
-				flip = !flip
-				variants = []bool{flip}
-			}
-			for _, mixed := range variants {
-				plan = append(plan, entry{bi: c.bi, oi: oi, site: c.site, kind: c.kind + "@" + c.syntax, mixed: mixed, why: why})
-				load[c.bi]++
-				nOp++
-			}
-			synDone[c.syntax]++
-		}
-		// choose among `pool` the candidate with the least covered syntax, then least loaded
-		// base; ties are broken at random (reservoir)
-		choose := func(pool []cand, usedBase map[int]bool) (cand, bool) {
-			var best cand
-			found, ties := false, 0
-			for _, c := range pool {
-				if usedBase[c.bi] {
-					continue
-				}
-				better := !found || synDone[c.syntax] < synDone[best.syntax] ||
-					(synDone[c.syntax] == synDone[best.syntax] && load[c.bi] < load[best.bi])
-				same := found && synDone[c.syntax] == synDone[best.syntax] && load[c.bi] == load[best.bi]
-				switch {
-				case better:
-					best, found, ties = c, true, 1
-				case same:
-					ties++
-					if pr.Intn(ties) == 0 {
-						best = c
-					}
-				}
-			}
-			return best, found
-		}
-		for _, k := range kinds {
-			var pool []cand
-			for _, c := range cs {
-				if c.kind == k {
-					pool = append(pool, c)
-				}
-			}
-			used := map[int]bool{}
-			for n := 0; n < perKind; n++ {
-				c, ok := choose(pool, used)
-				if !ok {
-					break
-				}
-				used[c.bi] = true
-				add(c, "kind")
-			}
-		}
-		for _, sy := range syns {
-			if synDone[sy] > 0 {
-				continue
-			}
-			var pool []cand
-			for _, c := range cs {
-				if c.syntax == sy {
-					pool = append(pool, c)
-				}
-			}
-			if c, ok := choose(pool, map[int]bool{}); ok {
-				add(c, "syntax")
-			}
-		}
-		for tries := 0; nOp < minPerOp && tries < 4*minPerOp; tries++ {
-			add(hx.Pick(pr, cs), "top-up")
-		}
-	}
-	sort.SliceStable(plan, func(i, j int) bool {
-		if plan[i].bi != plan[j].bi {
-			return plan[i].bi < plan[j].bi
-		}
-		return plan[i].oi < plan[j].oi
-	})
-	return plan, strata
-}
 
 // matrixJob: the defaults matrix (sg.DefaultCases) in one layout: one field per (type, old literal,
 // new literal); previous = the old literals, current = the new ones.  Whether the VALUE changed is
@@ -676,6 +475,109 @@ func matrixJob(run *hx.Run, replayID int, layout int, rn *sg.Runner) *sg.Result 
 	return res
 }
 
+// typeMatrixJob: the scalar TYPE matrix (sg.TypeCases: every ordered pair of different scalar
+// types, one field per pair) in one layout.  Oracle, per field and per type rule, in every
+// configuration where the rule is active and in the single-rule run: FIELD_SAME_TYPE reports the
+// field's type; FIELD_WIRE_JSON_COMPATIBLE_TYPE / FIELD_WIRE_COMPATIBLE_TYPE report it exactly when
+// the documented compatibility groups of the two types differ (string -> bytes is fine for WIRE) -
+// a missed pair is C03-missed-<rule>, a reported compatible pair C03-spurious-<rule>.
+func typeMatrixJob(run *hx.Run, replayID int, layout int, rn *sg.Runner) *sg.Result {
+	res := sg.NewResult()
+	lname := sg.TypeMatrixLayoutNames[layout]
+	prevSrc, cases := sg.RenderTypeMatrix(layout, true)
+	curSrc, _ := sg.RenderTypeMatrix(layout, false)
+	in := map[string]any{"current": curSrc, "previous": prevSrc, "edit": "scalar type matrix, layout " + lname}
+	fail := func(class, what string) {
+		res.Fail(hx.OracleFailure{Class: class, What: what, Input: in, Replay: replay(run, replayID)})
+	}
+	prev, err := sg.Compile(prevSrc)
+	if err != nil {
+		fail("harness-type-matrix-compile", "previous: "+err.Error())
+		return res
+	}
+	cur, err := sg.Compile(curSrc)
+	if err != nil {
+		fail("harness-type-matrix-compile", "current: "+err.Error())
+		return res
+	}
+	pe := sg.EvalPair(rn, cur, prev, false)
+	if pe.Err != nil {
+		fail(sg.ErrClass("C03", pe.Err), pe.ErrAt+": "+pe.Err.Error())
+		return res
+	}
+	note := "type-matrix " + lname
+	res.Cases = append(res.Cases, sg.Case{In: pe.In, Out: pe.Out, Nontrivial: true, Note: note, Cur: curSrc, Prev: prevSrc})
+	rules := []string{"FIELD_SAME_TYPE", "FIELD_WIRE_COMPATIBLE_TYPE", "FIELD_WIRE_JSON_COMPATIBLE_TYPE"}
+	rin, rout, sets, err := sg.RulesLine(rn, rules, cur, prev, pe.Idx)
+	if err != nil {
+		fail(sg.ErrClass("C03", err), "single-rule run: "+err.Error())
+		return res
+	}
+	res.Cases = append(res.Cases, sg.Case{In: rin, Out: rout, Nontrivial: true, Note: "rules " + note, Cur: curSrc, Prev: prevSrc})
+	res.Count("lines:rules")
+	at := func(as []sg.Ann, rule, file, path string) bool {
+		for _, a := range as {
+			if a.Rule == rule && a.File == file && a.Path == path {
+				return true
+			}
+		}
+		return false
+	}
+	fails := 0
+	for _, c := range cases {
+		file, path, err := sg.TypeMatrixPath(cur, c.FullName)
+		if err != nil {
+			fail("harness-type-matrix-field", err.Error())
+			continue
+		}
+		for _, rule := range rules {
+			want := true
+			switch rule {
+			case "FIELD_WIRE_JSON_COMPATIBLE_TYPE":
+				want = c.WireJSON
+			case "FIELD_WIRE_COMPATIBLE_TYPE":
+				want = c.Wire
+			}
+			runs := map[string][]sg.Ann{"v2/single:" + rule: sets[rule]}
+			for _, v := range sg.Versions {
+				for _, cat := range sg.Categories {
+					if sg.ActiveIn(v.Name, rule, cat) {
+						runs[v.Name+"/"+cat] = pe.Sets[v.Name+"/"+cat]
+					}
+				}
+			}
+			if want {
+				res.Count("expect:" + rule)
+				res.Sets["rules_with_checked_expectation"] = append(res.Sets["rules_with_checked_expectation"], rule)
+			} else {
+				res.Count("expect-absent:" + rule)
+			}
+			for _, where := range sortedKeysOf(runs) {
+				got := at(runs[where], rule, file, path)
+				switch {
+				case got == want && want:
+					res.Count("oracle:ok")
+				case got == want:
+					res.Count("oracle:ok-absent")
+				case want:
+					if fails++; fails <= 40 {
+						fail("C03-missed-"+rule, fmt.Sprintf("%s: type matrix (%s) field %s: %s: the documentation puts the two types into different compatibility groups and %s did not report at file=%q path=%s; got %v",
+							where, lname, c.FullName, c, rule, file, path, gotOf(runs[where], rule)[:min(4, len(gotOf(runs[where], rule)))]))
+					}
+				default:
+					if fails++; fails <= 40 {
+						fail("C03-spurious-"+rule, fmt.Sprintf("%s: type matrix (%s) field %s: %s: the documentation calls the change compatible for this rule, and %s reports at file=%q path=%s",
+							where, lname, c.FullName, c, rule, file, path))
+					}
+				}
+			}
+		}
+	}
+	res.Count("type-matrix:layout:" + lname)
+	res.CountN("type-matrix:pairs", len(cases))
+	return res
+}
+
 func sortedKeysOf(m map[string][]sg.Ann) []string {
 	out := make([]string, 0, len(m))
 	for k := range m {
@@ -737,18 +639,18 @@ func bigJob(run *hx.Run, root *hx.Rand, replayID int, k int, p int, rn *sg.Runne
 			continue
 		}
 		site := hx.Pick(r, sites)
-		pl, ok := plant(base, op, site, false, r, res)
-		if !ok || len(pl.exp) == 0 {
+		pl, ok := sg.Plant(base, op, site, false, r, res)
+		if !ok || len(pl.Exp) == 0 {
 			continue
 		}
-		cur0, err := cache.Compile(pl.cur.Sources())
+		cur0, err := cache.Compile(pl.Cur.Sources())
 		if err != nil {
 			res.Count("edit:compile-error:" + op.Name)
 			continue
 		}
 		// the file the annotation is located in / the edited file goes last
 		primary := site.File
-		for _, e := range pl.exp {
+		for _, e := range pl.Exp {
 			if e.File != "" {
 				primary = e.File
 				break
@@ -783,7 +685,7 @@ func bigJob(run *hx.Run, root *hx.Rand, replayID int, k int, p int, rn *sg.Runne
 			where = "none"
 		}
 		res.Count(fmt.Sprintf("big:P=%d:edited-file-in-remainder-chunk:%s", p, where))
-		pl.note = fmt.Sprintf("{big P=%d files=%d remainder=%s} ", p, n, where) + pl.note
+		pl.Note = fmt.Sprintf("{big P=%d files=%d remainder=%s} ", p, n, where) + pl.Note
 		evalCompiled(run, replayID, res, rn, cur, prev, pl, r, ":big")
 		done++
 	}
@@ -796,11 +698,11 @@ func main() {
 	run.Set("tree_has_package_last_element_fix", sg.TreeHasPackageFix())
 	root := hx.NewRand(run.Seed)
 	nBases := run.N(25, 40) // in.txt stays < 200 MB in the thorough tier
-	bases := make([]baseT, nBases)
+	bases := make([]sg.Base, nBases)
 	for bi := range bases {
-		bases[bi] = genBase(root, bi)
+		bases[bi] = sg.GenBase(root, bi)
 	}
-	plan, strata := makePlan(run, root, bases)
+	plan, strata := sg.MakePlan(run.Thorough(), root, bases)
 	run.Set("plan_entries", len(plan))
 	run.Set("plan_strata", strata)
 	// job unit: up to `chunk` consecutive plan entries of one base; --only addresses a plan entry
@@ -810,7 +712,7 @@ func main() {
 	jobOf := make([]int, len(plan))
 	for i := 0; i < len(plan); {
 		j := i
-		for j < len(plan) && j-i < chunk && plan[j].bi == plan[i].bi {
+		for j < len(plan) && j-i < chunk && plan[j].Bi == plan[i].Bi {
 			j++
 		}
 		for x := i; x < j; x++ {
@@ -825,15 +727,17 @@ func main() {
 	}
 	firstJobOfBase := map[int]int{}
 	for ji, j := range jobs {
-		if _, ok := firstJobOfBase[plan[j.lo].bi]; !ok {
-			firstJobOfBase[plan[j.lo].bi] = ji
+		if _, ok := firstJobOfBase[plan[j.lo].Bi]; !ok {
+			firstJobOfBase[plan[j.lo].Bi] = ji
 		}
 	}
-	// extra jobs after the plan: the defaults matrix (one job per layout) and the large-image jobs
+	// extra jobs after the plan: the defaults matrix and the scalar type matrix (one job per layout
+	// each) and the large-image jobs
 	// (own phases under thread.SetParallelism(2) / (3)); `--only len(plan)+k` addresses extra job k
 	nPlanJobs := len(jobs)
 	nBig := run.N(4, 8)
-	nExtra := sg.NumMatrixLayouts + 2*nBig
+	nMatrix := sg.NumMatrixLayouts + sg.NumTypeMatrixLayouts // defaults matrix, then the scalar type matrix
+	nExtra := nMatrix + 2*nBig
 	if only >= len(plan) {
 		k := only - len(plan)
 		if k >= nExtra {
@@ -847,7 +751,7 @@ func main() {
 	importEvery := run.N(7, 24) // thorough: in.txt stays < 200 MB
 	saved := thread.Parallelism()
 	phases := []sg.Phase{
-		{N: nPlanJobs + sg.NumMatrixLayouts},
+		{N: nPlanJobs + nMatrix},
 		{N: nBig, Enter: func() { thread.SetParallelism(2) }, Leave: func() { thread.SetParallelism(saved) }},
 		{N: nBig, Enter: func() { thread.SetParallelism(3) }, Leave: func() { thread.SetParallelism(saved) }},
 	}
@@ -857,15 +761,17 @@ func main() {
 			switch {
 			case k < sg.NumMatrixLayouts:
 				return matrixJob(run, extraReplay(k), k, rn)
-			case k < sg.NumMatrixLayouts+nBig:
+			case k < nMatrix:
+				return typeMatrixJob(run, extraReplay(k), k-sg.NumMatrixLayouts, rn)
+			case k < nMatrix+nBig:
 				return bigJob(run, root.Fork(1<<42), extraReplay(k), k, 2, rn)
 			}
 			return bigJob(run, root.Fork(1<<42), extraReplay(k), k, 3, rn)
 		}
 		res := sg.NewResult()
 		jb := jobs[ji]
-		bi := plan[jb.lo].bi
-		base := bases[bi].st
+		bi := plan[jb.lo].Bi
+		base := bases[bi].St
 		cache := sg.NewCache()
 		first := firstJobOfBase[bi] == ji
 		prev, err := cache.Compile(base.Sources())
@@ -878,7 +784,7 @@ func main() {
 		}
 		if first {
 			res.Count("gen:ok")
-			res.Count(fmt.Sprintf("zoo:%d", bases[bi].zoo))
+			res.Count(fmt.Sprintf("zoo:%d", bases[bi].Zoo))
 			sg.CountSchema(res, base.S)
 		}
 		for pi := jb.lo; pi < jb.hi; pi++ {
@@ -886,35 +792,16 @@ func main() {
 				continue
 			}
 			e := plan[pi]
-			op := sg.BreakingOps[e.oi]
-			rv := root.Fork(uint64(1<<41) + uint64(pi))
-			kindOnly, syn, _ := strings.Cut(e.kind, "@")
+			op := sg.BreakingOps[e.Oi]
+			rv := sg.PlanEntryRand(root, pi)
+			kindOnly, syn := sg.SplitKind(e.Kind)
 			keys := []string{op.Name + "|" + kindOnly, op.Name + "|@" + syn}
-			p, ok := plant(base, op, e.site, e.mixed, rv, res)
+			p, ok := sg.PlantEntry(bases, e, rv, res)
 			if !ok {
-				// the site turned out not to be applicable: try the other sites of the same
-				// kind and syntax in this base (alone), so that the stratum is not lost
-				res.Count("not-applicable-after-all:" + op.Name)
-				alts := op.Sites(base.S)
-				if e.mixed {
-					alts = append([]sg.Site{e.site}, alts...) // first the same site, alone
-				}
-				for ai, alt := range alts {
-					if (alt == e.site && !(e.mixed && ai == 0)) || op.SiteKind(base.S, alt) != kindOnly || op.SiteSyntax(base.S, alt) != syn {
-						continue
-					}
-					if p, ok = plant(base, op, alt, false, rv, res); ok {
-						res.Count("replanted-at-alternative-site:" + op.Name)
-						break
-					}
-				}
-				if !ok {
-					continue
-				}
+				continue
 			}
-			p.note = "{" + e.kind + "} " + p.note
 			if evalPlanted(run, pi, res, rn, cache, prev, p, rv) {
-				res.Count("plan:" + e.why)
+				res.Count("plan:" + e.Why)
 				res.Sets["operator_kind_planted"] = append(res.Sets["operator_kind_planted"], keys...)
 				res.Count("kind:" + kindOnly)
 				res.Count("syntax-of-site:" + syn)
@@ -936,9 +823,9 @@ func main() {
 	}
 	wanted := map[string]bool{}
 	for _, e := range plan {
-		kindOnly, syn, _ := strings.Cut(e.kind, "@")
-		wanted[sg.BreakingOps[e.oi].Name+"|"+kindOnly] = true
-		wanted[sg.BreakingOps[e.oi].Name+"|@"+syn] = true
+		kindOnly, syn := sg.SplitKind(e.Kind)
+		wanted[sg.BreakingOps[e.Oi].Name+"|"+kindOnly] = true
+		wanted[sg.BreakingOps[e.Oi].Name+"|@"+syn] = true
 	}
 	var unhit []string
 	for k := range wanted {
